@@ -93,8 +93,10 @@ impl<'a> LongChain<'a> {
             // An empty segment holds no bytes; storing it would expose an empty chunk
             return;
         }
-        self.total_remaining_len += cow.len();
+        let len = cow.len();
+        // `Vec::insert` panics on an out-of-range index; only count the bytes once it succeeded
         self.data.insert(index, cow);
+        self.total_remaining_len += len;
     }
 
     /// Remove the last [`CowBytes`] from the [`LongChain`].
